@@ -140,8 +140,14 @@ def check(rep, tier):
     rL = fr.run(cfgL, script=lambda call, m: np.zeros(m) if call >= nL - 1 else np.full(m, 0.999999999))
     rep.case("corpus-last-step", nontrivial=True)
     oracle(rep, cfgL, rL, rng)
-    for ri in range(nruns):
-        cfg = fr.gen_config(rng, max_vials=30 if tier == "quick" else 100, max_steps=700)
+    # corpus: strongly coupled vials (k_int >> k_shelf): a late-nucleating neighbour re-melts part of an almost frozen vial, whose ice
+    # fraction falls back below the threshold and crosses it a second time -- the reported time is the FIRST crossing
+    strong = []
+    for shape, seed in ([((2, 1, 1), 0), ((3, 1, 1), 1)] if tier == "quick" else [((2, 1, 1), 0), ((3, 1, 1), 1), ((2, 2, 1), 2), ((2, 1, 1), 3), ((4, 1, 1), 4)]):
+        strong.append(dict(arr="square", shape=shape, k={"int": 300, "ext": 0, "s0": 10, "s_sigma_rel": 0}, dt=2.0, T_init=None, over={}, initIce="indirect",
+                           seed=seed, seed_v=rng.randint(0, 10 ** 6) if seed else 2024, prog=dict(start=5, end=-45, rate=0.5 / 60, holds=[], t_tot=12000.0, dt=2.0), cnTemp=None, thr=0.9))
+    for ri in range(nruns + len(strong)):
+        cfg = strong[ri - nruns] if ri >= nruns else fr.gen_config(rng, max_vials=30 if tier == "quick" else 100, max_steps=700)
         store = "all" if ri % 3 else rng.choice(["edge", "corner", "uniform_3", [0], "all"])
         if store != "all" and cfg["shape"][0] * cfg["shape"][1] < 4:
             store = "all"
@@ -154,6 +160,8 @@ def check(rep, tier):
         nn = int(np.sum(~np.isnan(r_all["stats"]["t_nucleation"])))
         rep.case(repr(cfg), nontrivial=nn > 0, sample=dict(shape=cfg["shape"], arr=cfg["arr"], dt=cfg["dt"], thr=cfg["thr"], nucleated=nn, store=str(store)) if ri < 4 else None)
         rep.count("store=%s" % ("all" if store == "all" else "subset")); rep.count("nucleated-vials", nn)
+        ab = r_all["XS"] > cfg["thr"]
+        rep.count("vials-crossing-the-threshold-more-than-once", int(((ab[:, 1:] & ~ab[:, :-1]).sum(axis=1) > 1).sum()))
         inside_tot += oracle(rep, cfg, r_all, rng)
         accessors(rep, cfg, r, rng)
         if ri % 4 == 0:
